@@ -199,13 +199,22 @@ def coqchk(meta, log):
 
 # ------------------------------------------------------------------ Rust side
 def cargo_build(meta, log):
-    tmpl = open(os.path.join(HARNESS, "Cargo.toml.in")).read().replace("@REPO@", REPO)
-    cpath = os.path.join(HARNESS, "Cargo.toml")
-    if not os.path.exists(cpath) or open(cpath).read() != tmpl:
-        open(cpath, "w").write(tmpl)
+    """Build the harness bin against REPO. For the default /repo the crate in /verif/harness is
+    used; for any other tree a private copy of the crate (sources + lock file) is made under /tmp
+    so that concurrent checks against different trees never share a Cargo.toml or target dir."""
+    hdir = HARNESS
     env = {"CARGO_NET_OFFLINE": "true"}
     if REPO != "/repo":
-        env["CARGO_TARGET_DIR"] = os.environ.get("VERIF_TARGET_DIR", "/tmp/vh-target-" + hashlib.sha1(REPO.encode()).hexdigest()[:8])
+        tag = hashlib.sha1(REPO.encode()).hexdigest()[:8]
+        hdir = os.environ.get("VERIF_HARNESS_DIR", "/tmp/vh-harness-" + tag)
+        os.makedirs(hdir, exist_ok=True)
+        sh(["rsync", "-a", "--delete", "--exclude", "target", "--exclude", "Cargo.toml",
+            HARNESS + "/", hdir + "/"], timeout=300)
+        env["CARGO_TARGET_DIR"] = os.environ.get("VERIF_TARGET_DIR", "/tmp/vh-target-" + tag)
+    tmpl = open(os.path.join(hdir, "Cargo.toml.in")).read().replace("@REPO@", REPO)
+    cpath = os.path.join(hdir, "Cargo.toml")
+    if not os.path.exists(cpath) or open(cpath).read() != tmpl:
+        open(cpath, "w").write(tmpl)
     flags = os.environ.get("RUSTFLAGS", "")
     if "actix_web_verif" not in flags:
         env["RUSTFLAGS"] = (flags + " --cfg actix_web_verif").strip()
@@ -214,9 +223,9 @@ def cargo_build(meta, log):
     if meta.get("release"):
         cmd.append("--release")
         profile = "release"
-    rc, out = sh(cmd, cwd=HARNESS, timeout=meta.get("cargo_timeout", 2400), env=env)
-    log.append("== %s -> rc %d\n%s" % (" ".join(cmd), rc, out[-3000:]))
-    tdir = env.get("CARGO_TARGET_DIR", os.path.join(HARNESS, "target"))
+    rc, out = sh(cmd, cwd=hdir, timeout=meta.get("cargo_timeout", 2400), env=env)
+    log.append("== %s (in %s) -> rc %d\n%s" % (" ".join(cmd), hdir, rc, out[-3000:]))
+    tdir = env.get("CARGO_TARGET_DIR", os.path.join(hdir, "target"))
     return rc == 0, os.path.join(tdir, profile, meta["bin"]), out
 
 
